@@ -35,7 +35,15 @@ Inductive op :=
 | Ret (i : nat)          (* TokenManager::return_*_token of the i-th held token *)
 | Clear                  (* TokenManager::clear_thread_cache *)
 | Retire                 (* LazyFreeList::push(age = current_version) *)
-| Reclaim.               (* LazyFreeList::process_safe_items(min_version) *)
+| Reclaim                (* LazyFreeList::process_safe_items(min_version) *)
+(* ---- the operations of the extended histories (harness cells concx/L<level>) ---- *)
+| WithR | WithW          (* token::with_{reader,writer}_token: acquire through the thread cache, run the closure
+                            (one schedule point while it owns the token), return the token to the cache *)
+| Give (i : nat)         (* the i-th held token is moved into a mailbox shared by the threads *)
+| Take                   (* the newest token of the mailbox is taken out (Vec::pop) and owned by this thread *)
+| RetireN                (* 40 x LazyFreeList::push(age = current_version) *)
+| ReclaimBulk            (* if should_bulk_process() { process_safe_items(min_version) } *)
+| ClearStats.            (* TokenManager::clear_all_stats: no effect on tokens, counters, versions, queue *)
 
 Inductive pc :=
 | Idle
@@ -50,7 +58,8 @@ Inductive pc :=
 | TLock                            (* fx: try_advance about to lock *)
 | TLoadAr | TLoadAw | TLoadCur     (* try_advance loads *)
 | TStore (c : N)                   (* about to store min_version := c *)
-| TUnlock.                         (* fx: try_advance about to unlock *)
+| TUnlock                          (* fx: try_advance about to unlock *)
+| WBody.                           (* with_*_token: inside the closure, the token is in the thread's hands *)
 
 (* hook identifiers, src/fsa/verif_sched.rs `pt` *)
 Definition pc_point (p : pc) : N :=
@@ -65,6 +74,7 @@ Definition pc_point (p : pc) : N :=
   | AInc KW _ _ => 15 | AInc _ _ _ => 5
   | RDec t => match tk t with KW => 21 | _ => 20 end
   | TLock => 34 | TLoadAr => 30 | TLoadAw => 31 | TLoadCur => 32 | TStore _ => 33 | TUnlock => 35
+  | WBody => 0
   end.
 
 Record thread := Th {
@@ -84,7 +94,9 @@ Record shared := Sh {
   ar : N;                    (* active_readers *)
   aw : N;                    (* active_writers *)
   lck : option nat;          (* owner of token_chain_mutex *)
-  lazy : list N              (* ages in the LazyFreeList, front first *)
+  lazy : list N;             (* ages in the LazyFreeList, front first *)
+  mail : list token;         (* tokens handed from thread to thread: owned by no thread, newest first *)
+  bulk : N                   (* LazyFreeList::bulk_threshold (usize) *)
 }.
 
 Record state := St { sh : shared; ths : list thread }.
@@ -113,17 +125,19 @@ Fixpoint upd {A} (l : list A) (i : nat) (x : A) : list A :=
 Definition set_pc (th : thread) (p : pc) : thread :=
   Th (prog th) p (held th) (cache_r th) (cache_w th) (pend th) (res th).
 Definition set_lck (s : shared) (o : option nat) : shared :=
-  Sh (lvl s) (cur s) (minv s) (ar s) (aw s) o (lazy s).
+  Sh (lvl s) (cur s) (minv s) (ar s) (aw s) o (lazy s) (mail s) (bulk s).
 Definition set_cur (s : shared) (c : N) : shared :=
-  Sh (lvl s) c (minv s) (ar s) (aw s) (lck s) (lazy s).
+  Sh (lvl s) c (minv s) (ar s) (aw s) (lck s) (lazy s) (mail s) (bulk s).
 Definition set_min (s : shared) (c : N) : shared :=
-  Sh (lvl s) (cur s) c (ar s) (aw s) (lck s) (lazy s).
+  Sh (lvl s) (cur s) c (ar s) (aw s) (lck s) (lazy s) (mail s) (bulk s).
 Definition set_ar (s : shared) (c : N) : shared :=
-  Sh (lvl s) (cur s) (minv s) c (aw s) (lck s) (lazy s).
+  Sh (lvl s) (cur s) (minv s) c (aw s) (lck s) (lazy s) (mail s) (bulk s).
 Definition set_aw (s : shared) (c : N) : shared :=
-  Sh (lvl s) (cur s) (minv s) (ar s) c (lck s) (lazy s).
+  Sh (lvl s) (cur s) (minv s) (ar s) c (lck s) (lazy s) (mail s) (bulk s).
+Definition set_mail (s : shared) (l : list token) : shared :=
+  Sh (lvl s) (cur s) (minv s) (ar s) (aw s) (lck s) (lazy s) l (bulk s).
 Definition set_lazy (s : shared) (l : list N) : shared :=
-  Sh (lvl s) (cur s) (minv s) (ar s) (aw s) (lck s) l.
+  Sh (lvl s) (cur s) (minv s) (ar s) (aw s) (lck s) l (mail s) (bulk s).
 
 (* the operation a thread is executing / will execute next.  When the program is exhausted
    the thread releases what it still owns (the harness does the same): held tokens first,
@@ -158,11 +172,33 @@ Definition release_next (th : thread) : thread :=
 Definition with_pend (th : thread) (l : list token) : thread :=
   Th (prog th) (tpc th) (held th) (cache_r th) (cache_w th) l (res th).
 
-(* the acquire returns: the token goes to the thread, results are recorded *)
+(* the thread is executing with_reader_token / with_writer_token *)
+Definition in_with (th : thread) : bool :=
+  match prog th with WithR :: _ | WithW :: _ => true | _ => false end.
+(* the acquire returns: the token goes to the thread, results are recorded.  Inside with_*_token the
+   operation is not over: the closure runs next (program counter WBody). *)
 Definition got_token (th : thread) (t : token) : thread :=
+  if in_with th then
+    Th (prog th) WBody (held th ++ [t]) (cache_r th) (cache_w th) (pend th)
+       (res th ++ [Z.of_N (tv t); Z.of_N (tmin t)])
+  else
   complete (Th (prog th) (tpc th) (held th ++ [t]) (cache_r th) (cache_w th) (pend th) (res th))
            [Z.of_N (tv t); Z.of_N (tmin t)].
 Definition refused (th : thread) : thread := complete th [(-1)%Z; (-1)%Z].
+
+(* TokenManager::return_*_token of the i-th held token: it goes into its slot of the thread cache, the
+   token cached there before is dropped, i.e. released inside this operation *)
+Definition do_ret (th : thread) (i : nat) : thread :=
+  match nth_error (held th) i with
+  | None => complete th []
+  | Some t =>
+      match tk t with
+      | KW => release_next
+                (Th (prog th) Idle (remove_nth i (held th)) (cache_r th) (Some t) (opt_list (cache_w th)) (res th))
+      | _ => release_next
+                (Th (prog th) Idle (remove_nth i (held th)) (Some t) (cache_w th) (opt_list (cache_r th)) (res th))
+      end
+  end.
 
 (* VersionManager::acquire_*_token up to its first shared access *)
 Definition begin_acquire (fx : bool) (s : shared) (th : thread) (k : kind) : thread :=
@@ -185,6 +221,27 @@ Fixpoint take_safe (fuel : nat) (m : N) (l : list N) : list N * list N :=
   | _, _ => ([], l)
   end.
 Definition BULK_FREE_NUM : nat := 32.
+
+(* LazyFreeList::process_safe_items with the list's own bulk_threshold, the loop as written:
+     while let Some(front) = items.front() {
+         if !front.can_free(min) { break }  pop_front; free_fn(item); processed += 1;
+         if processed >= bulk_threshold { break } }
+   so a threshold of 0 still frees one item per call.  `fuel` = length of the queue. *)
+Fixpoint psi (fuel : nat) (thr m processed : N) (l : list N) : list N * list N :=
+  match fuel, l with
+  | S f, a :: r =>
+      if a <? m then
+        let p := processed + 1 in
+        if thr <=? p then ([a], r)
+        else let '(x, y) := psi f thr m p r in (a :: x, y)
+      else ([], l)
+  | _, _ => ([], l)
+  end.
+Definition process_safe (thr m : N) (l : list N) : list N * list N := psi (length l) thr m 0 l.
+(* LazyFreeList::should_bulk_process: len() >= bulk_threshold.saturating_mul(2)   (usize = u64) *)
+Definition should_bulk (thr : N) (l : list N) : bool := N.min (2 * thr) (W64 - 1) <=? nlen l.
+Definition BULK_FREE_N : N := 32.
+Definition RETIRE_N : nat := 40.
 
 (* ---------- one step of thread `tid` ---------- *)
 Definition tstep (fx : bool) (tid : nat) (s : shared) (th : thread) : option (shared * thread) :=
@@ -212,24 +269,43 @@ Definition tstep (fx : bool) (tid : nat) (s : shared) (th : thread) : option (sh
           | Some t => Some (s, release_next
                 (Th (prog th) Idle (remove_nth i (held th)) (cache_r th) (cache_w th) [t] (res th)))
           end
-      | Some (Ret i) =>
-          match nth_error (held th) i with
-          | None => Some (s, complete th [])
-          | Some t =>
-              match tk t with
-              | KW => Some (s, release_next
-                  (Th (prog th) Idle (remove_nth i (held th)) (cache_r th) (Some t) (opt_list (cache_w th)) (res th)))
-              | _ => Some (s, release_next
-                  (Th (prog th) Idle (remove_nth i (held th)) (Some t) (cache_w th) (opt_list (cache_r th)) (res th)))
-              end
-          end
+      | Some (Ret i) => Some (s, do_ret th i)
       | Some Clear =>
           Some (s, release_next
                 (Th (prog th) Idle (held th) None None (opt_list (cache_r th) ++ opt_list (cache_w th)) (res th)))
       | Some Retire => Some (set_lazy s (lazy s ++ [cur s]), complete th [])
       | Some Reclaim =>
-          let '(freed, rest) := take_safe BULK_FREE_NUM (minv s) (lazy s) in
+          let '(freed, rest) := process_safe (bulk s) (minv s) (lazy s) in
           Some (set_lazy s rest, complete th ((1000 + Z.of_nat (length freed))%Z :: map Z.of_N freed))
+      | Some WithR =>
+          match cache_r th with
+          | Some t => Some (s, got_token (Th (prog th) Idle (held th) None (cache_w th) (pend th) (res th)) t)
+          | None => Some (s, begin_acquire fx s th KR)
+          end
+      | Some WithW =>
+          match cache_w th with
+          | Some t => Some (s, got_token (Th (prog th) Idle (held th) (cache_r th) None (pend th) (res th)) t)
+          | None => Some (s, begin_acquire fx s th KW)
+          end
+      | Some (Give i) =>
+          match nth_error (held th) i with
+          | None => Some (s, complete th [])
+          | Some t => Some (set_mail s (t :: mail s),
+                            complete (Th (prog th) Idle (remove_nth i (held th)) (cache_r th) (cache_w th) (pend th) (res th)) [])
+          end
+      | Some Take =>
+          match mail s with
+          | [] => Some (s, complete th [])
+          | t :: r => Some (set_mail s r,
+                            complete (Th (prog th) Idle (held th ++ [t]) (cache_r th) (cache_w th) (pend th) (res th)) [])
+          end
+      | Some RetireN => Some (set_lazy s (lazy s ++ repeat (cur s) RETIRE_N), complete th [])
+      | Some ReclaimBulk =>
+          if should_bulk (bulk s) (lazy s) then
+            let '(freed, rest) := process_safe (bulk s) (minv s) (lazy s) in
+            Some (set_lazy s rest, complete th ((1000 + Z.of_nat (length freed))%Z :: map Z.of_N freed))
+          else Some (s, complete th [1000%Z])
+      | Some ClearStats => Some (s, complete th [])
       end
   | ALock k =>
       match lck s with
@@ -268,6 +344,7 @@ Definition tstep (fx : bool) (tid : nat) (s : shared) (th : thread) : option (sh
   | TLoadCur => Some (s, set_pc th (TStore (cur s)))
   | TStore c => Some (set_min s c, if fx then set_pc th TUnlock else release_next th)
   | TUnlock => Some (set_lck s None, release_next th)
+  | WBody => Some (s, do_ret th (pred (length (held th))))   (* the closure returns Ok: return_*_token *)
   end.
 
 Definition step (fx : bool) (st : state) (tid : nat) : state :=
@@ -283,8 +360,11 @@ Definition step (fx : bool) (st : state) (tid : nat) : state :=
 Definition run (fx : bool) (sched : list nat) (st : state) : state := fold_left (step fx) sched st.
 
 Definition init_thread (p : list op) : thread := Th p Idle [] None None [] [].
-Definition init (level : N) (progs : list (list op)) : state :=
-  St (Sh level 1 1 0 0 None []) (map init_thread progs).
+(* a fresh manager, an empty mailbox, a LazyFreeList::with_bulk_threshold(b) *)
+Definition initb (level b : N) (progs : list (list op)) : state :=
+  St (Sh level 1 1 0 0 None [] [] b) (map init_thread progs).
+(* LazyFreeList::new(): bulk_threshold = BULK_FREE_NUM *)
+Definition init (level : N) (progs : list (list op)) : state := initb level BULK_FREE_N progs.
 
 (* ---------- what the property talks about (spec layer) ---------- *)
 (* tokens a thread owns: in its hands, in its cache, or queued for release by the running op *)
@@ -296,13 +376,13 @@ Definition inflight (th : thread) : list token :=
   | AUnlock k m v | AInc k m v => [Tok k v m]
   | _ => []
   end.
-Definition live (st : state) : list token := flat_map tokens_of (ths st).
+Definition live (st : state) : list token := flat_map tokens_of (ths st) ++ mail (sh st).
 Definition count_kind (k : kind) (l : list token) : N :=
   nlen (filter (fun t => kind_eqb (tk t) k) l).
 Definition tracked (t : token) : Prop := tk t <> KRO.
 Definition quiescent (st : state) : Prop := forall th, In th (ths st) -> tpc th = Idle.
 Definition all_done (st : state) : Prop :=
-  forall th, In th (ths st) -> tpc th = Idle /\ cur_op th = None.
+  mail (sh st) = [] /\ forall th, In th (ths st) -> tpc th = Idle /\ cur_op th = None.
 
 (* ---------- observation compared with the implementation after every step ---------- *)
 Definition point_of (th : thread) : N :=
@@ -345,4 +425,11 @@ Definition conc_case : Type := (N * list (list op) * list nat * list obs_t * lis
 Definition conc_ok (fx : bool) (c : conc_case) : bool :=
   let '(level, progs, sched, trace, results) := c in
   let '(tr, fin) := run_trace fx sched (init level progs) in
+  eqb_trace tr trace && eqb_llz (map res (ths fin)) results.
+
+(* the same with the bulk threshold of the shared LazyFreeList as a part of the case *)
+Definition concb_case : Type := (N * N * list (list op) * list nat * list obs_t * list (list Z))%type.
+Definition concb_ok (fx : bool) (c : concb_case) : bool :=
+  let '(level, b, progs, sched, trace, results) := c in
+  let '(tr, fin) := run_trace fx sched (initb level b progs) in
   eqb_trace tr trace && eqb_llz (map res (ths fin)) results.
